@@ -14,6 +14,17 @@ def bounds(tier):
     return dict(K=2, S=2, M=1)
 
 
+def usage_cfg(e, usage):
+    """usage=False: no usage store; 'plain': store, no blur; 'blur': store + symbolic interval"""
+    if not usage:
+        return dict(usage=False, blur=None)
+    if usage == "blur":
+        B = e.sym_int("blur")
+        e.assume(z3.And(B.z >= 1, B.z <= 86400))
+        return dict(usage=True, blur=B)
+    return dict(usage=True, blur=None)
+
+
 def finish(x, asserts, info=None, kf=None, inv=True, mem=True):
     """add the generic frame + invariant assertions and wrap up"""
     w, pre = x.w, x.pre
@@ -23,14 +34,17 @@ def finish(x, asserts, info=None, kf=None, inv=True, mem=True):
         for k, v in inv_db_clauses(post).items():
             asserts["INV." + k] = v
     if mem:
-        for k, v in inv_mem(w, post).items():
+        im = inv_mem(w, post)
+        for k, v in im.items():
             asserts["MEM." + k] = v
+        w.obs.append(("mem", {k: (v if isinstance(v, bool) else SBool(v)) for k, v in im.items()}))
     asserts["C09.clean_at_exit"] = not (w.db.dirty or w.db.in_tx or
                                         (w.usage is not None and (w.usage.dirty or w.usage.in_tx)))
     asserts["C09.clean_at_send"] = all(not r["dirty"] for c in w.conns for r in step_frames(c))
     info = info or {}
     info.setdefault("shape", "%s/%s" % (x.a_shape, x.o_shape))
-    info.setdefault("frames", [ftype(r) for r in step_frames(x.c)])
+    if "frames" not in info:
+        info["frames"] = [ftype(r) for r in step_frames(x.c)]
     return PathResult(asserts, world=w, info=info, kf=kf or [])
 
 
@@ -71,9 +85,9 @@ def subscription_intact(x, conn, b):
 # close
 # =============================================================================================
 @obligation("step.close")
-def step_close(e, tier="quick", usage=False, acting=None, others=None):
+def step_close(e, tier="quick", usage=False, acting=None, others=None, crowd=1):
     bd = bounds(tier)
-    x = build(e, crowd=1, usage=usage, acting=acting, others=others, **bd)
+    x = build(e, crowd=crowd, **usage_cfg(e, usage), acting=acting, others=others, **bd)
     w, c, pre = x.w, x.c, x.pre
     has_mb = e.sym_bool("cmd.has_mailbox")
     mid = e.sym_str("cmd.mailbox")
@@ -189,6 +203,14 @@ def step_close(e, tier="quick", usage=False, acting=None, others=None):
     A["C08.other_access"] = And(*parts_access)
     A["C08.others_untouched"] = frame_other_bundles(w, pre, post, lambda b: And(b.p, b.mid.z == tgt))
     A["C12.others_untouched"] = A["C08.others_untouched"]
+
+    def own_mood(b, i):
+        r = rows_of(b, pre, "mailbox_sides")[i]
+        return (And(r.p, r.v["side"] == Z(x.side)), (mood_null, mood.z))
+    transient = []
+    if held is None:
+        transient = [(absent, x.app, [(T, when, Or(mood_null, mood.z == Z("")), mood.z)], F)]
+    usage_asserts(A, x, pre, post, when, F, w.cfg["blur"], own_mood=own_mood, transient_mb=transient)
     # generic frames
     A["C01.msg_frame"] = frame_messages(w, pre, post)
     A["C01.no_new_msg"] = len(new_rows(pre, post, "messages")) == 0
@@ -203,7 +225,7 @@ def step_close(e, tier="quick", usage=False, acting=None, others=None):
 # =============================================================================================
 # helpers for "exactly these new rows"
 # =============================================================================================
-def row_is(r, **vals):
+def row_is(snap, table, r, **vals):
     """term: row r is present with these column values (None = SQL NULL; a (nullbit, value) pair =
     NULL iff nullbit)"""
     parts = [r.p]
@@ -213,16 +235,11 @@ def row_is(r, **vals):
         elif isinstance(v, tuple):
             nb, val = v
             parts.append(r.n[k] == nb)
-            parts.append(Implies(z3.Not(nb), eqv(W_(r.v[k]), val)))
+            parts.append(Implies(z3.Not(nb), eqv(col_value(snap, table, r, k), val)))
         else:
             parts.append(z3.Not(r.n[k]))
-            parts.append(eqv(W_(r.v[k]), v))
+            parts.append(eqv(col_value(snap, table, r, k), v))
     return And(*parts)
-
-
-def W_(z):
-    from sx.engine import W
-    return W(z)
 
 
 def new_exactly(pre, post, table, want):
@@ -234,9 +251,9 @@ def new_exactly(pre, post, table, want):
     n_want = count([c for c, _ in want]) if want else z3.IntVal(0)
     parts.append(count([r.p for r in nr]) == n_want)
     for r in nr:
-        parts.append(Implies(r.p, Or(*[And(c, row_is(r, **spec)) for c, spec in want])))
+        parts.append(Implies(r.p, Or(*[And(c, row_is(post, table, r, **spec)) for c, spec in want])))
     for c, spec in want:
-        parts.append(Implies(c, Or(*[row_is(r, **spec) for r in nr])))
+        parts.append(Implies(c, Or(*[row_is(post, table, r, **spec) for r in nr])))
     return And(*parts)
 
 
@@ -280,7 +297,7 @@ def not_subscribed_anywhere(x, c):
 @obligation("step.open")
 def step_open(e, tier="quick", usage=False, acting=None, others=None):
     bd = bounds(tier)
-    x = build(e, crowd=1, usage=usage, acting=acting, others=others, **bd)
+    x = build(e, crowd=1, **usage_cfg(e, usage), acting=acting, others=others, **bd)
     w, c, pre = x.w, x.c, x.pre
     has_mb, mid = e.sym_bool("cmd.has_mailbox"), e.sym_str("cmd.mailbox")
     msg = w.msg("open", mailbox=(has_mb, mid), id=(e.sym_bool("cmd.has_id"), e.sym_str("cmd.id")))
@@ -350,10 +367,11 @@ def step_open(e, tier="quick", usage=False, acting=None, others=None):
 
         def frame_is(fr_, r):
             f = fr_["frame"]
-            return And(eqv(f.get("side"), W_(r.v["side"])), eqv(f.get("phase"), W_(r.v["phase"])),
-                       eqv(f.get("body"), W_(r.v["body"])), eqv(f.get("server_rx"), W_(r.v["server_rx"])),
+            cv = lambda c: col_value(pre, "messages", r, c)
+            return And(eqv(f.get("side"), cv("side")), eqv(f.get("phase"), cv("phase")),
+                       eqv(f.get("body"), cv("body")), eqv(f.get("server_rx"), cv("server_rx")),
                        z3.If(r.n["msg_id"], f.get("id") is None,
-                             eqv(f.get("id"), W_(r.v["msg_id"])) if f.get("id") is not None else F))
+                             eqv(f.get("id"), cv("msg_id")) if f.get("id") is not None else F))
         rp = [n_want == len(msg_frames)]
         for f_ in msg_frames:
             rp.append(Or(*[And(cnd, frame_is(f_, r)) for cnd, r in want_msgs]))
@@ -378,7 +396,7 @@ def step_open(e, tier="quick", usage=False, acting=None, others=None):
 @obligation("step.add")
 def step_add(e, tier="quick", usage=False, acting=None, others=None):
     bd = bounds(tier)
-    x = build(e, crowd=1, usage=usage, acting=acting, others=others, **bd)
+    x = build(e, crowd=1, **usage_cfg(e, usage), acting=acting, others=others, **bd)
     w, c, pre = x.w, x.c, x.pre
     has_ph, ph = e.sym_bool("cmd.has_phase"), e.sym_str("cmd.phase")
     has_bd, body = e.sym_bool("cmd.has_body"), e.sym_str("cmd.body")
@@ -501,7 +519,7 @@ def claim_reference(x, pre, post, name, when, fresh_id, nm):
 @obligation("step.claim")
 def step_claim(e, tier="quick", usage=False, acting=None, others=None):
     bd = bounds(tier)
-    x = build(e, crowd=1, usage=usage, acting=acting or ["fresh", "sub0", "claimed0"],
+    x = build(e, crowd=1, **usage_cfg(e, usage), acting=acting or ["fresh", "sub0", "claimed0"],
               others=others or ["none", "sub0s1"], **bd)
     w, c, pre = x.w, x.c, x.pre
     has_np, name = e.sym_bool("cmd.has_nameplate"), e.sym_str("cmd.nameplate")
@@ -553,7 +571,7 @@ def step_claim(e, tier="quick", usage=False, acting=None, others=None):
 @obligation("step.release")
 def step_release(e, tier="quick", usage=False, acting=None, others=None):
     bd = bounds(tier)
-    x = build(e, crowd=1, usage=usage, acting=acting or ["fresh", "claimed0"],
+    x = build(e, crowd=1, **usage_cfg(e, usage), acting=acting or ["fresh", "claimed0"],
               others=others or ["none", "sub0s1"], **bd)
     w, c, pre = x.w, x.c, x.pre
     has_np, name = e.sym_bool("cmd.has_nameplate"), e.sym_str("cmd.nameplate")
@@ -615,6 +633,7 @@ def step_release(e, tier="quick", usage=False, acting=None, others=None):
     eff.append(Implies(And(ok, z3.Not(Or(*[is_t(b) for b in w.bundles]))),
                        all_unchanged_except(w, pre, post, lambda t, i: False)))
     A["C07.effect"] = And(*eff)
+    usage_asserts(A, x, pre, post, when, F, w.cfg["blur"])
     generic_frames(A, x, pre, post, released=lambda b, i: rel[(b.k, i)])
     A["C01.no_new_msg"] = len(nm["messages"]) == 0
     A["C08.others_untouched"] = frame_other_bundles(w, pre, post, is_t)
@@ -628,7 +647,7 @@ def step_release(e, tier="quick", usage=False, acting=None, others=None):
 def step_list(e, tier="quick", usage=False):
     bd = bounds(tier)
     allow = [True, False][e.choose(2, "allow_list")]
-    x = build(e, usage=usage, allow_list=allow, acting=["fresh", "sub0"], others=["none"], **bd)
+    x = build(e, **usage_cfg(e, usage), allow_list=allow, acting=["fresh", "sub0"], others=["none"], **bd)
     w, c, pre = x.w, x.c, x.pre
     msg = w.msg("list", id=(e.sym_bool("cmd.has_id"), e.sym_str("cmd.id")))
     ex = w.deliver(c, msg)
@@ -670,7 +689,7 @@ def step_list(e, tier="quick", usage=False):
 def step_allocate(e, tier="quick", usage=False):
     bd = bounds(tier)
     allow = [True, False][e.choose(2, "allow_list")]
-    x = build(e, usage=usage, allow_list=allow, acting=["fresh"], others=["none"], **bd)
+    x = build(e, **usage_cfg(e, usage), allow_list=allow, acting=["fresh"], others=["none"], **bd)
     w, c, pre = x.w, x.c, x.pre
     msg = w.msg("allocate", id=(e.sym_bool("cmd.has_id"), e.sym_str("cmd.id")))
     nfresh = len(w.fresh_ids)
@@ -712,7 +731,7 @@ def step_allocate(e, tier="quick", usage=False):
 @obligation("step.bind")
 def step_bind(e, tier="quick", usage=False):
     bd = bounds(tier)
-    x = build(e, usage=usage, acting=["unbound", "fresh"], others=["none", "sub0s0"], **bd)
+    x = build(e, **usage_cfg(e, usage), acting=["unbound", "fresh"], others=["none", "sub0s0"], **bd)
     w, c, pre = x.w, x.c, x.pre
     has_app, app = e.sym_bool("cmd.has_appid"), e.sym_str("cmd.appid")
     has_side, side = e.sym_bool("cmd.has_side"), e.sym_str("cmd.side")
@@ -731,6 +750,17 @@ def step_bind(e, tier="quick", usage=False):
     A["C17.bind_ok"] = Implies(z3.Not(proto_err), types == ["ack"])
     A["C17.unchanged"] = store_unchanged(pre, post)
     A["C02.only_to_sender"] = only_to(x, c)
+    if w.usage is not None:
+        when = w.clock.values[0]
+        cv = w.usage.snapshot().tables["client_versions"]
+        blur = w.cfg["blur"]
+        want_t = blurred(when, blur)
+        A["C16.connect_time"] = Implies(z3.Not(proto_err), And(
+            count([r.p for r in cv]) == 1,
+            *[Implies(r.p, And(r.v["connect_time"] == want_t, r.v["app_id"] == app.z, r.v["side"] == side.z))
+              for r in cv]))
+        A["C15.bind_committed"] = not (w.usage.dirty or w.usage.in_tx)
+        usage_asserts(A, x, pre, post, when, F, blur)
     generic_frames(A, x, pre, post)
     return finish(x, A)
 
@@ -738,7 +768,7 @@ def step_bind(e, tier="quick", usage=False):
 @obligation("step.disconnect")
 def step_disconnect(e, tier="quick", usage=False):
     bd = bounds(tier)
-    x = build(e, usage=usage, acting=["unbound", "fresh", "sub0", "claimed0"], others=["none", "sub0s0", "sub0s1"], **bd)
+    x = build(e, **usage_cfg(e, usage), acting=["unbound", "fresh", "sub0", "claimed0"], others=["none", "sub0s0", "sub0s1"], **bd)
     w, c, pre = x.w, x.c, x.pre
     ex = w.disconnect(c)
     post = w.snapshot()
@@ -763,7 +793,7 @@ KNOWN_TYPES = ["ping", "bind", "list", "allocate", "claim", "release", "open", "
 def step_any(e, tier="quick", usage=False, types=None):
     bd = dict(bounds(tier))
     bd["M"] = 1
-    x = build(e, crowd=0, usage=usage, acting=["unbound", "fresh", "sub0", "claimed0"], others=["none", "sub0s1"], **bd)
+    x = build(e, crowd=0, **usage_cfg(e, usage), acting=["unbound", "fresh", "sub0", "claimed0"], others=["none", "sub0s1"], **bd)
     w, c, pre = x.w, x.c, x.pre
     # protocol state of the acting connection
     fl = {}
@@ -793,7 +823,7 @@ def step_any(e, tier="quick", usage=False, types=None):
     elif ty == "?":
         tsym = e.sym_str("val_type")
         for k in KNOWN_TYPES:
-            e.assume(tsym.z != z3.StringVal(k))
+            e.assume(tsym.z != Z(k))
         p2, v2 = dict(pres), dict(val)
         p2["type"], v2["type"] = True, tsym
         msg = SymMsg(p2, v2)
